@@ -165,8 +165,12 @@ def _t_blocks(blocks, st):
         elif k == "tbl":
             ncol = max(len(r) for r in b["rows"])
             rows = []
-            for row in b["rows"]:
+            for ri, row in enumerate(b["rows"]):
                 cells = "".join(f'<table:table-cell office:value-type="string">{_t_blocks(c["blocks"], st)}</table:table-cell>' for c in row)
+                if st.opts.get("span_first_cell") and ri == 0 and ncol >= 2 and len(b["rows"]) >= 2:
+                    # a title cell merged across the whole first row (only its first cell's content is rendered; used by the checks whose oracle is self-consistency: C04, C06)
+                    cells = (f'<table:table-cell office:value-type="string" table:number-columns-spanned="{ncol}">{_t_blocks(row[0]["blocks"], st)}</table:table-cell>'
+                             + "<table:covered-table-cell/>" * (ncol - 1))
                 rows.append(f"<table:table-row>{cells}</table:table-row>")
             hdr = b.get("hdr", 0)
             body = (f"<table:table-header-rows>{''.join(rows[:hdr])}</table:table-header-rows>" if hdr else "") + "".join(rows[hdr:])
@@ -252,8 +256,10 @@ def _page_frames(blocks, st, ctx):
         elif k == "tbl":
             ncol = max(len(r) for r in b["rows"])
             rows = []
-            for row in b["rows"]:
+            for ri, row in enumerate(b["rows"]):
                 cells = "".join(f'<table:table-cell>{_t_blocks(c["blocks"], st)}</table:table-cell>' for c in row)
+                if st.opts.get("span_first_cell") and ri == 0 and ncol >= 2 and len(b["rows"]) >= 2:
+                    cells = f'<table:table-cell table:number-columns-spanned="{ncol}">{_t_blocks(row[0]["blocks"], st)}</table:table-cell>' + "<table:covered-table-cell/>" * (ncol - 1)
                 rows.append(f"<table:table-row>{cells}</table:table-row>")
             hdr = b.get("hdr", 0)
             body = (f"<table:table-header-rows>{''.join(rows[:hdr])}</table:table-header-rows>" if hdr else "") + "".join(rows[hdr:])
